@@ -5,9 +5,14 @@
    accessors; [self_ready o] = o may stand on the left of == (a concept needs CodeMeaning and
    CodingSchemeDesignator); [other_ready o] = on the right (CodingSchemeDesignator);
    [wf_concept d] = exactly one code-value attribute, meaning and scheme present;
-   [scheme_value o] = the (scheme, value) pair that is hashed. *)
+   [scheme_value o] = the (scheme, value) pair that is hashed.
+   (C17_Proofs_Ext) [built o] = o is a pydicom Code or came out of CodedConcept(...), from_code, from_dataset
+   (copy or not, any heap) or a later edit of the meaning; [Inv h] = every object of class CodedConcept in heap h is
+   exactly one code; [run_ops] = a history of API calls and user actions (C17_Model, Extension 3).
+   (C17_Proofs_Set) [eok U e] = entry e = (identity, object) is the object with that identity and can be hashed
+   and compared; [ematch] = same hashed string and == ; [plast l x] = value written last under a key matching x. *)
 From Coq Require Import String ZArith List Bool.
-From HD Require Import Base.Val C17_Model C17_Proofs.
+From HD Require Import Base.Val C17_Model C17_Proofs C17_Proofs_Ext C17_Proofs_Set C17_Proofs_File.
 Import ListNotations.
 Open Scope string_scope.
 Open Scope Z_scope.
@@ -260,3 +265,244 @@ Proof.
   split; [eexists; repeat split|]. repeat split; try reflexivity; cbn; discriminate.
 Qed.
 Print Assumptions C17_example.
+
+(* ==== the property sentence, end to end ============================================================= *)
+(* everything the API builds is exactly one code, can stand on either side of == and can be hashed *)
+Theorem C17_built_is_one_code : forall o, built o -> match o with PD _ => True | HD d => wf_concept d end.
+Proof. exact built_wf. Qed.
+Print Assumptions C17_built_is_one_code.
+
+Theorem C17_built_is_comparable_and_hashable : forall o, built o ->
+  self_ready o = true /\ exists p, scheme_value o = Some p.
+Proof. exact built_ready. Qed.
+Print Assumptions C17_built_is_comparable_and_hashable.
+
+(* "Equality between coded concepts, and between them and pydicom codes in either direction, is an equivalence
+   relation decided by scheme, value and scheme version and never by meaning, and two codes with the same scheme
+   and value hash equally whichever class represents them, so that sets and dictionaries treat them as one":
+   no side condition other than that the operands were built through the API *)
+Theorem C17_coded_concepts_are_values : forall srt (H : string -> Z),
+  (forall a b, built a -> built b ->
+     exists r, obj_eq srt a b = Ok r /\ obj_eq srt b a = Ok r /\ obj_ne srt a b = Ok (negb r)) /\
+  (forall a, built a -> obj_eq srt a a = Ok true) /\
+  (forall a b c, built a -> built b -> built c ->
+     obj_eq srt a b = Ok true -> obj_eq srt b c = Ok true -> obj_eq srt a c = Ok true) /\
+  (forall a b, built a -> built b ->
+     exists va vb, oview a = Some va /\ oview b = Some vb /\
+                   (obj_eq srt a b = Ok true <-> norm srt va = norm srt vb)) /\
+  (forall a b m, built a -> built b ->
+     built (with_meaning m a) /\ obj_eq srt (with_meaning m a) b = obj_eq srt a b /\
+     obj_eq srt a (with_meaning m b) = obj_eq srt a b) /\
+  (forall a b, built a -> built b -> scheme_value a = scheme_value b ->
+     obj_hash H a = obj_hash H b /\ exists z, obj_hash H a = Ok z) /\
+  (forall a b, built a -> built b -> scheme_value a = scheme_value b -> oview a = oview b ->
+     in_set_of srt a b = Ok true /\ in_set_of srt b a = Ok true).
+Proof. exact values_semantics. Qed.
+Print Assumptions C17_coded_concepts_are_values.
+
+(* "A code value is stored in the attribute the standard assigns to its form and length and read back unchanged,
+   and converting from a dataset either copies or aliases it as requested": store, convert (either way, anywhere in
+   any heap), read *)
+Theorem C17_store_convert_load : forall v s m ver copy (h : heap), slen m <= 64 ->
+  exists d h' r d',
+    init v s m ver = Ok d /\
+    from_dataset (h ++ [d])%list (Addr (length h)) copy = Ok (h', r) /\ nth_error h' r = Some d' /\
+    (r = length h <-> copy = false) /\
+    attr_slot (select_attr v) d' = Some v /\ (forall a, a <> select_attr v -> attr_slot a d' = None) /\
+    ds_value d' = Some v /\ ds_scheme d' = Ok s /\ ds_meaning d' = Ok m /\ ds_version d' = ver /\ d_cc d' = true.
+Proof. exact store_convert_load. Qed.
+Print Assumptions C17_store_convert_load.
+
+Theorem C17_convert_reads_any_attribute : forall a c copy,
+  exists h' r d', from_dataset [ds_with a c] (Addr 0%nat) copy = Ok (h', r) /\ nth_error h' r = Some d' /\
+    attr_slot a d' = Some (c_value c) /\ (forall a', a' <> a -> attr_slot a' d' = None) /\
+    ds_value d' = Some (c_value c) /\ ds_scheme d' = Ok (c_scheme c) /\ ds_meaning d' = Ok (c_meaning c) /\
+    ds_version d' = c_version c /\ d_cc d' = true.
+Proof. exact convert_reads_any_attribute. Qed.
+Print Assumptions C17_convert_reads_any_attribute.
+
+(* ==== histories: every reachable heap ================================================================= *)
+Theorem C17_reachable_invariant : forall srt ops, Inv (fst (fst (run_ops srt ([], []) ops))).
+Proof. exact reachable_inv. Qed.
+Print Assumptions C17_reachable_invariant.
+
+Theorem C17_step_preserves_invariant : forall srt st o, Inv (fst st) -> Inv (fst (fst (step srt st o))).
+Proof. exact step_inv. Qed.
+Print Assumptions C17_step_preserves_invariant.
+
+Theorem C17_reachable_concepts_are_values : forall srt ops h kids vs a b da db,
+  run_ops srt ([], []) ops = ((h, kids), vs) ->
+  nth_error h a = Some da -> nth_error h b = Some db -> d_cc da = true -> d_cc db = true ->
+  wf_concept da /\ wf_concept db /\
+  (exists r, obj_eq srt (HD da) (HD db) = Ok r /\ obj_eq srt (HD db) (HD da) = Ok r) /\
+  obj_eq srt (HD da) (HD da) = Ok true /\ exists k, hash_key (HD da) = Ok k.
+Proof. exact reachable_concepts_are_values. Qed.
+Print Assumptions C17_reachable_concepts_are_values.
+
+(* depth of the copy (a nested sequence item, depth 1) *)
+Theorem C17_copy_is_deep : forall srt h kids a c d dc, nth_error h a = Some d -> wf_concept d ->
+  kid_of kids a = Some c -> nth_error h c = Some dc ->
+  let r := length h in
+  step srt (h, kids) (OFromDataset (Addr a) true) = ((h ++ [set_cc d; dc])%list, (r, S r) :: kids, vnat r) /\
+  kid_of ((r, S r) :: kids) r = Some (S r) /\ S r <> c /\ r <> a /\ nth_error h r = None /\ nth_error h (S r) = None /\
+  (forall i, (i < length h)%nat -> nth_error (h ++ [set_cc d; dc])%list i = nth_error h i) /\
+  (forall i x y, (i < length h)%nat ->
+     nth_error (update (update (h ++ [set_cc d; dc])%list r x) (S r) y) i = nth_error h i).
+Proof. exact copy_is_deep. Qed.
+Print Assumptions C17_copy_is_deep.
+
+Theorem C17_alias_shares_nested : forall srt h kids a d, nth_error h a = Some d -> wf_concept d ->
+  step srt (h, kids) (OFromDataset (Addr a) false) = (update h a (set_cc d), kids, vnat a).
+Proof. exact alias_shares_nested. Qed.
+Print Assumptions C17_alias_shares_nested.
+
+Theorem C17_reachable_no_shared_nested : forall srt ops h kids vs a b c,
+  run_ops srt ([], []) ops = ((h, kids), vs) ->
+  kid_of kids a = Some c -> kid_of kids b = Some c -> a = b.
+Proof. exact reachable_no_shared_nested. Qed.
+Print Assumptions C17_reachable_no_shared_nested.
+
+(* ==== == against non-codes (CodedConcept.__eq__ fall-through; outside the property, modelled and driven) ==== *)
+Theorem C17_py_eq_on_codes_is_eq : forall srt a b, py_eq srt (VObj a) (VObj b) = obj_eq srt a b.
+Proof. exact py_eq_objs. Qed.
+Print Assumptions C17_py_eq_on_codes_is_eq.
+
+Theorem C17_eq_concept_vs_plain_dataset : forall srt d p,
+  (py_eq srt (VObj (HD d)) (VPlain p) = Ok true <->
+   d_cv d = d_cv p /\ d_lcv d = d_lcv p /\ d_urn d = d_urn p /\ d_meaning d = d_meaning p /\
+   d_scheme d = d_scheme p /\ d_version d = d_version p) /\
+  (exists r, py_eq srt (VObj (HD d)) (VPlain p) = Ok r).
+Proof. exact eq_plain_dataset_elementwise. Qed.
+Print Assumptions C17_eq_concept_vs_plain_dataset.
+
+Theorem C17_eq_concept_vs_foreign : forall srt d,
+  py_eq srt (VObj (HD d)) VForeign = Ok false /\ py_eq srt VForeign (VObj (HD d)) = Ok false.
+Proof. exact py_eq_concept_foreign. Qed.
+Print Assumptions C17_eq_concept_vs_foreign.
+
+Theorem C17_eq_code_vs_noncode_raises : forall srt c x, (forall o, x <> VObj o) ->
+  py_eq srt (VObj (PD c)) x = Err "AttributeError" /\ py_eq srt x (VObj (PD c)) = Err "AttributeError".
+Proof. exact py_eq_code_noncode. Qed.
+Print Assumptions C17_eq_code_vs_noncode_raises.
+
+Theorem C17_eq_mixed_symmetric : forall srt a x, (forall o, x <> VObj o) ->
+  py_eq srt (VObj a) x = py_eq srt x (VObj a) /\ py_ne srt (VObj a) x = py_ne srt x (VObj a).
+Proof. exact py_eq_mixed_sym. Qed.
+Print Assumptions C17_eq_mixed_symmetric.
+
+(* observation: against a plain Dataset (not a code) the meaning does take part *)
+Theorem C17_eq_plain_dataset_compares_meaning_observation :
+  exists srt d p, oview (HD d) = oview (HD p) /\ obj_eq srt (HD d) (HD p) = Ok true /\
+                  py_eq srt (VObj (HD d)) (VPlain p) = Ok false.
+Proof. exact plain_dataset_meaning_matters. Qed.
+Print Assumptions C17_eq_plain_dataset_compares_meaning_observation.
+
+(* ==== sets and dictionaries with any number of keys ===================================================== *)
+Theorem C17_key_match_means : forall srt a b, ready a -> ready b ->
+  (omatch srt a b = true <-> hash_key a = hash_key b /\ obj_eq srt a b = Ok true).
+Proof. exact omatch_spec. Qed.
+Print Assumptions C17_key_match_means.
+
+Theorem C17_api_objects_are_keys : (forall d, wf_concept d -> ready (HD d)) /\ (forall c, ready (PD c)).
+Proof. exact (conj wf_is_ready code_is_ready). Qed.
+Print Assumptions C17_api_objects_are_keys.
+
+(* set(l): never fails, keeps inserted objects only, x in set(l) iff some inserted key has the same hash and == x,
+   no two kept keys match, exactly one kept key stands for each class *)
+Theorem C17_set_of_codes : forall srt U l, Forall (eok U) l ->
+  exists s, set_of_list srt l = Ok s /\
+    (forall e, In e s -> In e l) /\
+    (forall x, eok U x -> exists b, set_contains srt s x = Ok b /\
+        (b = true <-> exists e, In e l /\ hash_key (snd e) = hash_key (snd x) /\ obj_eq srt (snd e) (snd x) = Ok true)) /\
+    (forall i j a b, (i < j)%nat -> nth_error s i = Some a -> nth_error s j = Some b -> ematch srt a b = false) /\
+    (forall x i j a b, nth_error s i = Some a -> nth_error s j = Some b ->
+        ematch srt a x = true -> ematch srt b x = true -> i = j).
+Proof. exact set_of_codes. Qed.
+Print Assumptions C17_set_of_codes.
+
+(* "so that sets and dictionaries treat them as one": same scheme, value and version, any two classes, any set *)
+Theorem C17_set_treats_as_one_many : forall srt U s a b, Forall (eok U) s -> eok U a -> eok U b ->
+  scheme_value (snd a) = scheme_value (snd b) -> oview (snd a) = oview (snd b) ->
+  (exists s1, set_add srt s a = Ok s1 /\ set_add srt s1 b = Ok s1 /\ set_contains srt s1 b = Ok true) /\
+  set_contains srt s a = set_contains srt s b.
+Proof. exact set_treats_as_one_many. Qed.
+Print Assumptions C17_set_treats_as_one_many.
+
+(* d[k] = v for any sequence of writes: the keys are the set of the keys, a read returns the last write
+   under a matching key *)
+Theorem C17_dict_of_codes : forall srt U l, Forall (eok U) (map fst l) ->
+  exists d, dict_of_list srt l = Ok d /\
+    set_of_list srt (map fst l) = Ok (map fst d) /\
+    forall x, eok U x -> dict_get srt d x = Ok (plast (ematch srt) l x).
+Proof. exact dict_of_codes. Qed.
+Print Assumptions C17_dict_of_codes.
+
+Example C17_example_histories_and_mixed_eq :
+  built (HD (set_meaning "edited" (set_cc ex_parent))) /\
+  (exists h kids vs, run_ops (fun _ => None) ([], []) ex_ops = ((h, kids), vs) /\
+     length h = 5%nat /\ kid_of kids 0%nat = Some 1%nat /\ kid_of kids 2%nat = Some 3%nat /\
+     nth_error h 1%nat = Some ex_item /\ nth_error h 3%nat = Some (set_meaning "changed" ex_item) /\
+     nth_error h 0%nat = Some (set_cc ex_parent) /\ nth_error h 2%nat = Some (set_cc ex_parent) /\
+     vs = [VZ 0; VZ 2; VZ 3; VZ 0; VB true; VZ 4; VB true]) /\
+  py_eq (fun _ => None) (VObj (HD (set_cc ex_parent))) (VPlain ex_parent) = Ok true /\
+  py_eq (fun _ => None) (VPlain (set_meaning "x" ex_parent)) (VObj (HD (set_cc ex_parent))) = Ok false /\
+  py_eq (fun _ => None) (VObj (HD (set_cc ex_parent))) VForeign = Ok false.
+Proof. exact ext_example. Qed.
+Print Assumptions C17_example_histories_and_mixed_eq.
+
+Example C17_example_set_and_dict :
+  Forall (eok ex_U) [(0%nat, ex_k0); (1%nat, ex_k1); (2%nat, ex_k2); (3%nat, ex_k3)] /\
+  set_of_list (fun _ => None) [(0%nat, ex_k0); (1%nat, ex_k1); (2%nat, ex_k2); (3%nat, ex_k3)] =
+    Ok [(0%nat, ex_k0); (2%nat, ex_k2)] /\
+  set_contains (fun _ => None) [(0%nat, ex_k0); (2%nat, ex_k2)] (1%nat, ex_k1) = Ok true /\
+  (exists d, dict_of_list (fun _ => None) [((0%nat, ex_k0), 10); ((2%nat, ex_k2), 20); ((1%nat, ex_k1), 30)] = Ok d /\
+     map fst d = [(0%nat, ex_k0); (2%nat, ex_k2)] /\
+     dict_get (fun _ => None) d (3%nat, ex_k3) = Ok (Some 30) /\ dict_get (fun _ => None) d (2%nat, ex_k2) = Ok (Some 20)).
+Proof. exact set_example. Qed.
+Print Assumptions C17_example_set_and_dict.
+
+(* ==== through a file ===================================================================================== *)
+(* the string rule of the round trip: rstrip removes a run of trailing blanks and nothing else *)
+Theorem C17_rstrip_rule : forall s,
+  (exists n, s = rstrip s ++ spaces n) /\ last_is_space (rstrip s) = false /\
+  (forall p n, s = p ++ spaces n -> last_is_space p = false -> rstrip s = p) /\
+  (rstrip s = s <-> last_is_space s = false).
+Proof. exact (fun s => conj (rstrip_split s) (conj (rstrip_no_trailing_blank s) (conj (rstrip_unique s) (rstrip_id_iff s)))). Qed.
+Print Assumptions C17_rstrip_rule.
+
+(* store -> dcmwrite -> dcmread -> from_dataset: same attribute, every value without its trailing blanks *)
+Theorem C17_store_file_load : forall v s m ver, slen m <= 64 ->
+  exists d', store_file_load v s m ver = Ok d' /\
+    attr_slot (select_attr v) d' = Some (rstrip v) /\ (forall a, a <> select_attr v -> attr_slot a d' = None) /\
+    ds_value d' = Some (rstrip v) /\ ds_scheme d' = Ok (rstrip s) /\ ds_meaning d' = Ok (rstrip m) /\
+    ds_version d' = option_map rstrip ver /\ d_cc d' = true.
+Proof. exact store_file_load_spec. Qed.
+Print Assumptions C17_store_file_load.
+
+(* "read back unchanged": for every value, scheme, meaning, version not ending in a blank the concept read from
+   the file IS the concept written *)
+Theorem C17_store_file_load_unchanged : forall v s m ver, slen m <= 64 ->
+  last_is_space v = false -> last_is_space s = false -> last_is_space m = false -> oclean ver ->
+  exists d d', init v s m ver = Ok d /\ store_file_load v s m ver = Ok d' /\ d' = d /\
+    attr_slot (select_attr v) d' = Some v /\ ds_value d' = Some v /\ ds_scheme d' = Ok s /\ ds_meaning d' = Ok m /\
+    ds_version d' = ver.
+Proof. exact store_file_load_unchanged. Qed.
+Print Assumptions C17_store_file_load_unchanged.
+
+Theorem C17_file_copy_equal : forall srt v s m ver, slen m <= 64 ->
+  last_is_space v = false -> last_is_space s = false -> last_is_space m = false -> oclean ver ->
+  exists d d', init v s m ver = Ok d /\ store_file_load v s m ver = Ok d' /\
+    obj_eq srt (HD d) (HD d') = Ok true /\ obj_eq srt (HD d') (HD d) = Ok true /\ hash_key (HD d) = hash_key (HD d').
+Proof. exact file_copy_equal. Qed.
+Print Assumptions C17_file_copy_equal.
+
+Theorem C17_file_roundtrip_idempotent : forall d, file_roundtrip (file_roundtrip d) = file_roundtrip d.
+Proof. exact file_roundtrip_idem. Qed.
+Print Assumptions C17_file_roundtrip_idempotent.
+
+(* observation (DICOM padding, outside the property's alphabet): a value ending in a blank is not read back unchanged *)
+Theorem C17_file_trailing_blank_lost_observation :
+  exists v s m ver d d', init v s m ver = Ok d /\ store_file_load v s m ver = Ok d' /\
+    ds_value d = Some v /\ ds_value d' <> Some v /\ obj_eq (fun _ => None) (HD d) (HD d') = Ok false.
+Proof. exact trailing_blank_lost. Qed.
+Print Assumptions C17_file_trailing_blank_lost_observation.
